@@ -35,4 +35,19 @@ Definition run_lower (cmd : string) (arg : sexp) : sexp :=
       end
     | _ => bad "lower_elementwise: expected (name dins dout graph)"
     end
+  else if String.eqb cmd "lower_reduce" then
+    match arg with
+    | L [fn; din; dout; g] =>
+      match dS fn, dec_dims din, dec_dims dout, dTm 500 g with
+      | Some fn, Some din, Some dout, Some g =>
+        match single din, single dout with
+        | Some pin, Some pout =>
+          let m := lower_reduce fn pin pout in
+          L [A "lower"; sB (reduce_ok pin pout); sB (equiv m g); sB (wf_tm m); sB (wf_tm g); sNat (tsize (norm m)); sNat (tsize (norm g))]
+        | _, _ => A "not_single"
+        end
+      | _, _, _, _ => bad "lower_reduce: cannot decode"
+      end
+    | _ => bad "lower_reduce: expected (name din dout graph)"
+    end
   else bad "lower: unknown command".
